@@ -69,6 +69,21 @@ def generate(g, tier):
             text, rd = render_ast(prog, g.units(), '')
             exp = expect_of(prog, rd)
             cases.append(dict(op='compile', src=dict(text=text), meta=dict(family='visible', exp=list(exp[:4]))))
+    # several calls written as one grouped RUN run one after the other, each with the values current at ITS turn
+    for _ in range(count(tier, 30, 300)):
+        x0 = r.randint(0, 5)
+        calls = [r.choice(['bump', 'show x', 'show x+1', 'twice x']) for _k in range(r.randint(2, 5))]
+        pre = ['VAR x %d' % x0, 'FUNC bump', '    VAR x x+1', 'FUNC show v', '    $STRING "v="+v', 'FUNC twice w', '    VAR x w*2', '    $STRING "t="+w']
+        exp, x = [], x0
+        for c in calls:
+            if c == 'bump': x += 1
+            elif c == 'show x': exp.append(f'STRING v={x}')
+            elif c == 'show x+1': exp.append(f'STRING v={x + 1}')
+            else: exp.append(f'STRING t={x}'); x *= 2
+        forms = ['RUN\n' + '\n'.join('    ' + c for c in calls), f'RUN {calls[0]}\n' + '\n'.join('    ' + c for c in calls[1:]), '\n'.join('RUN ' + c for c in calls)]
+        for f in forms:
+            cases.append(dict(op='compile', src=dict(text='\n'.join(pre) + '\n' + f + '\n$STRING "end="+x'),
+                              meta=dict(family='grouped-run', exp=['ok', exp + [f'STRING end={x}'], [], None])))
     return cases
 
 
